@@ -334,6 +334,50 @@ def method_cases(draw, tier="quick"):
 
 
 # ---------------------------------------------------------------------------------
+# sub-check 3: collections of 1-D histograms over a shared binning (physt.collection / multi_h1 / create)
+
+
+def check_collection(case, ctx: Ctx):
+    import physt
+    from physt.histogram_collection import HistogramCollection
+
+    sets = {k: [float(x) for x in v] for k, v in case["sets"].items()}
+    ps = case["pairs"]
+    edges = np.array([p[0] for p in ps] + [ps[-1][1]])
+    via = case["via"]
+    ctx.label("via_" + via, f"members_{len(sets)}")
+    if via == "collection":
+        col = ctx.call("physt.collection", physt.collection, {k: np.array(v) for k, v in sets.items()}, edges)
+    elif via == "multi_h1":
+        col = ctx.call("multi_h1", HistogramCollection.multi_h1, {k: np.array(v) for k, v in sets.items()}, edges)
+    else:
+        from physt.binnings import NumpyBinning
+
+        col = ctx.call("HistogramCollection(binning)", HistogramCollection, binning=NumpyBinning(edges))
+        for k, v in sets.items():
+            ctx.call("create", col.create, k, np.array(v))
+    require(len(col) == len(sets), "member_count", f"{len(col)} vs {len(sets)}")
+    for (name, data), h in zip(sets.items(), col):
+        require(h.name == name, "member_name", f"{h.name!r} vs {name!r}")
+        require(col[name] is h, "lookup_by_name", name)
+        sub = {"data": data, "weights": None, "wkind": "none", "dtype": None, "keep_missed": True}
+        assert_histogram(Ctx(), h, sub, ps)
+        require(h.binning == col.binning, "member_binning_differs", name)
+    total = ctx.call("collection.sum", col.sum)
+    alld = [x for v in sets.values() for x in v]
+    assert_histogram(ctx, total, {"data": alld, "weights": None, "wkind": "none", "dtype": None, "keep_missed": True}, ps)
+    ctx.nt(len(sets) >= 2)
+
+
+@st.composite
+def collection_cases(draw, tier="quick"):
+    ps = draw(gen.pairs(1, 8, gapped=False))
+    k = draw(st.integers(1, 4))
+    sets = {f"s{i}": draw(gen.values_for(ps, 0 if i else 1, 15)) for i in range(k)}
+    return {"pairs": ps, "sets": sets, "via": draw(st.sampled_from(["collection", "multi_h1", "create"]))}
+
+
+# ---------------------------------------------------------------------------------
 # known findings (signatures)
 
 
@@ -352,4 +396,5 @@ FINDINGS = [
 SUBS = [
     Sub("explicit", lambda tier: explicit_cases(tier), check_explicit, quick=1600, thorough=12000),
     Sub("method", lambda tier: method_cases(tier), check_method, quick=800, thorough=5000),
+    Sub("collection", lambda tier: collection_cases(tier), check_collection, quick=300, thorough=2000),
 ]
